@@ -567,8 +567,49 @@ def gen_known_malformed(rng, n):
 GARBAGE = [t for t in VOCAB if t not in (";", "{", "}", "#", "é")]
 
 
+def known_C14_shape(case):
+    """the recorded class (known_findings.txt): an enum body whose malformed member opens an annotation parenthesis and never closes
+    it -- `@X ( B ,` -- so that the member's own terminator, the comma, is read as an annotation-parameter separator"""
+    g = case.get("garbage") or []
+    if not case.get("enum"):
+        return False
+    for i in range(len(g) - 1):
+        if g[i].startswith("@") and g[i + 1] == "(" and ")" not in g[i + 2:]:
+            return True
+    return False
+
+
+def c14_case(name, head_text, groups_text, k, garbage, enum, rng, style="space"):
+    """a C14 case from token texts: groups_text = the good members (each with its terminator), garbage = the malformed member"""
+    term = "," if enum else ";"
+    head = [gen.Tok(t) for t in head_text]
+    groups = [[gen.Tok(t) for t in g] for g in groups_text]
+    bad = [gen.Tok(t) for t in garbage] + [gen.Tok(term)]
+    a_toks = head + [t for g in groups[:k] for t in g] + bad + [t for g in groups[k:] for t in g] + [gen.Tok("}")]
+    b_toks = head + [t for g in groups for t in g] + [gen.Tok("}")]
+    seed = rng.randrange(1 << 30)
+    ta, spans = gen.render(a_toks, random.Random(seed), style)
+    tb, _ = gen.render(b_toks, random.Random(seed), "space")
+    g0 = len(head) + sum(len(g) for g in groups[:k])
+    extent = (spans[g0][0], spans[g0 + len(bad) - 1][1])
+    return {"name": name, "files": [("a", ta), ("b", tb)], "extent": extent, "k": k, "garbage": list(garbage), "enum": enum,
+            "nmembers": len(groups), "note": " ".join(garbage) + " " + term}
+
+
 def gen_C14(rng, tier):
     cases = []
+    # the recorded finding and its neighbours first (the neighbours must NOT fail: a closed parenthesis, the same garbage in an
+    # interface, an annotation without parenthesis)
+    eh = ["package", "p", ";", "enum", "E", "{"]
+    eg = [["A", ","], ["C", ","], ["D", ","]]
+    cases.append(c14_case("kf_enum_open_paren", eh, eg, 1, ["@X", "(", "B"], True, rng))
+    cases.append(c14_case("kf_enum_open_paren_kv", eh, eg, 1, ["@X", "(", "B", "=", "1"], True, rng))
+    cases.append(c14_case("kf_enum_open_paren_first", eh, eg, 0, ["@X", "("], True, rng))
+    cases.append(c14_case("nb_enum_closed_paren", eh, eg, 1, ["@X", "(", "B", ")", "=", "="], True, rng))
+    cases.append(c14_case("nb_enum_no_paren", eh, eg, 1, ["@X", "="], True, rng))
+    ih = ["package", "p", ";", "interface", "I", "{"]
+    ig = [["void", "a", "(", ")", ";"], ["void", "c", "(", ")", ";"], ["void", "d", "(", ")", ";"]]
+    cases.append(c14_case("nb_iface_open_paren", ih, ig, 1, ["@X", "(", "B"], False, rng))
     n = 500 if tier == "quick" else 8000
     i = 0
     while len(cases) < n:
@@ -591,6 +632,8 @@ def gen_C14(rng, tier):
             garbage = [rng.choice(pool) for _ in range(rng.choice([1, 2, 3]))]
         else:
             garbage = [rng.choice(pool) for _ in range(rng.choice([1, 2, 4, 6, 9]))]
+        if rng.random() < 0.06:
+            garbage = garbage[:rng.randrange(len(garbage) + 1)] + ["@Ann", "("] + [rng.choice(pool) for _ in range(rng.choice([0, 1, 3]))]
         bad = [gen.Tok(t) for t in garbage] + [gen.Tok(term)]
         a_toks = head + [t for g in groups[:k] for t in g] + bad + [t for g in groups[k:] for t in g] + [gen.Tok("}")]
         b_toks = head + [t for g in groups for t in g] + [gen.Tok("}")]
@@ -600,7 +643,7 @@ def gen_C14(rng, tier):
         tb, _ = gen.render(b_toks, random.Random(seed), "space")
         g0 = len(head) + sum(len(g) for g in groups[:k])
         extent = (spans[g0][0], spans[g0 + len(bad) - 1][1])
-        cases.append({"name": f"g{i}", "files": [("a", ta), ("b", tb)], "extent": extent, "k": k, "garbage": garbage,
+        cases.append({"name": f"g{i}", "files": [("a", ta), ("b", tb)], "extent": extent, "k": k, "garbage": garbage, "enum": enum,
                       "nmembers": len(groups), "note": " ".join(garbage) + " " + term})
     return cases
 
